@@ -159,6 +159,7 @@ pub fn par_plan(prop: &str, tier: &str) -> ParPlan {
       ("C02", "quick") | ("C05", "quick") => ParPlan { pools: vec![1, 2, 3, 4, 8, 16], reps: 2, perturb: true },
       ("C02", _) | ("C05", _) => ParPlan { pools: vec![1, 2, 3, 4, 8, 16], reps: 6, perturb: true },
       ("C10", _) => ParPlan { pools: vec![1, 2, 4, 8], reps: 2, perturb: true },
+      ("C06", _) => ParPlan { pools: vec![2, 4, 16], reps: 1, perturb: false },
       _ => ParPlan { pools: vec![4], reps: 1, perturb: false },
    }
 }
@@ -618,17 +619,19 @@ pub fn run_main(entries: Vec<Entry>) -> ! {
       std::process::exit(code);
    }
 
-   if args.prop == "C20" {
-      // the process-wide shard count is fixed by the first use of a concurrent index: make that first use happen
-      // inside a pool of the requested size
-      if let Ok(k) = std::env::var("VERIF_FIRST_POOL") {
-         if let Ok(k) = k.parse::<usize>() {
-            let n = pools::pool(k).install(vglue::shards_count_now);
-            eprintln!("first use of ascent in a pool of {k} threads: shards_count = {n}");
-         }
+   // the process-wide shard count of the concurrent indices is fixed by the first use of one: make that first use happen
+   // inside a pool of the requested size (4 shards in a pool of one thread, 64 in a pool of 16; sampled length
+   // estimates and shard-wise merges behave differently)
+   if let Ok(k) = std::env::var("VERIF_FIRST_POOL") {
+      if let Ok(k) = k.parse::<usize>() {
+         let n = pools::pool(k).install(vglue::shards_count_now);
+         eprintln!("first use of ascent in a pool of {k} threads: shards_count = {n}");
       }
+   }
+   if args.prop == "C20" {
       crate::concurrent::run_all(&args, &groups, &result, &nontrivial_set);
       let mut res = result.into_inner().unwrap();
+      *res.distribution.entry(format!("dashmap_shards={}", vglue::shards_count_now())).or_insert(0) += res.evaluations;
       res.nontrivial = nontrivial_set.into_inner().unwrap().len() as u64;
       res.wall_s = t0.elapsed().as_secs_f64();
       std::fs::write(&args.out, serde_json::to_string_pretty(&res).unwrap()).expect("write result");
@@ -655,6 +658,9 @@ pub fn run_main(entries: Vec<Entry>) -> ! {
    let mut res = result.into_inner().unwrap();
    res.nontrivial = nontrivial_set.into_inner().unwrap().len() as u64;
    res.wall_s = t0.elapsed().as_secs_f64();
+   if any_par {
+      *res.distribution.entry(format!("dashmap_shards={}", vglue::shards_count_now())).or_insert(0) += res.evaluations;
+   }
    let json = serde_json::to_string_pretty(&res).unwrap();
    std::fs::write(&args.out, json).expect("write result");
    let code = if !res.infra_errors.is_empty() { 2 } else { 0 };
@@ -689,7 +695,9 @@ fn run_group(
       return;
    }
    let strat = inputs::strategy(&group.ref_prog);
-   let gseed = args.seed.wrapping_mul(0x9E37_79B9_7F4A_7C15) ^ hash64(&group.base);
+   // (different process configurations draw different inputs for the same program)
+   let first_pool = std::env::var("VERIF_FIRST_POOL").unwrap_or_default();
+   let gseed = args.seed.wrapping_mul(0x9E37_79B9_7F4A_7C15) ^ hash64(&format!("{}{}", group.base, first_pool));
    let mut runner = TestRunner::new(Config {
       cases: args.cases,
       max_shrink_iters: 400,
